@@ -166,6 +166,37 @@ Proof.
   assert (q = q') by congruence. subst q'. rewrite E. apply merge_coarsest; assumption.
 Qed.
 
+(* ---- the iterators: class_ids() yields every non-empty class exactly once, picks() one member of
+   each, in the same order ---- *)
+Lemma g_class_ids p fuel : gwf p -> (plen_of p + 2 <= fuel)%nat ->
+  exists l, drain_ids fuel (CharPartition_class_ids p) = Some l /\
+            NoDup (map convc l) /\
+            (forall c, In c (map convc l) <-> exists x, good x /\ in_class (convp p) x c).
+Proof.
+  intros Hp Hf. assert (Hf' : (plen (convp p) + 2 <= fuel)%nat).
+  { unfold plen_of in Hf. unfold plen, convp, ivs. rewrite map_length. exact Hf. }
+  pose proof (link_class_ids p fuel Hf') as L.
+  destruct (drain_ids fuel (CharPartition_class_ids p)) as [l|]; [|discriminate L].
+  exists l. split; [reflexivity|]. cbn [option_map] in L. injection L as L. rewrite L.
+  destruct (c11_class_ids (convp p) Hp) as [A [B _]]. split; assumption.
+Qed.
+
+Lemma g_picks p fuel : gwf p -> (plen_of p + 2 <= fuel)%nat ->
+  exists l xs, drain_ids fuel (CharPartition_class_ids p) = Some l /\
+               drain_picks fuel (CharPartition_picks p) = Some xs /\
+               Forall2 (fun c x => good x /\ in_class (convp p) x (convc c)) l xs.
+Proof.
+  intros Hp Hf. assert (Hf' : (plen (convp p) + 2 <= fuel)%nat).
+  { unfold plen_of in Hf. unfold plen, convp, ivs. rewrite map_length. exact Hf. }
+  pose proof (link_class_ids p fuel Hf') as L.
+  destruct (drain_ids fuel (CharPartition_class_ids p)) as [l|]; [|discriminate L].
+  exists l, (ppicks (convp p)). split; [reflexivity|]. split; [apply link_picks; exact Hf'|].
+  cbn [option_map] in L. injection L as L.
+  destruct (c11_picks (convp p) Hp) as [_ F]. rewrite <- L in F.
+  clear -F. remember (ppicks (convp p)) as xs. clear Heqxs. revert xs F.
+  induction l as [|c l IH]; intros xs F; inversion F; subst; constructor; auto.
+Qed.
+
 Example g_example :
   let p := CharPartition_mk [CharSet_mk 10 20; CharSet_mk 30 40] 0 in
   gwf p /\
